@@ -19,7 +19,9 @@ func Notifier.Alert
   assumes alerts == old(alerts) + 1
 
 func SnapshotStore.GetSnapshot
-  modifies everything
+  modifies everything, lastStoredHyper
+  // (ghost bookkeeping: the hyper digest of the snapshot the store handed out)
+  assumes isnil(result_1) && result_0 != nil && result_0.Snapshot != nil ==> lastStoredHyper == result_0.Snapshot.HyperDigest
 func SnapshotStore.PutBatch
   modifies everything, putBatches
   assumes putBatches == old(putBatches) + 1
